@@ -283,7 +283,17 @@ fn one(run: &Run, schemas: &[AnySchema], case: &Case, valid: bool) {
     for (n, schema) in schemas.iter().enumerate() {
         HOOKS.with(|h| h.borrow_mut().clear());
         let env = Env::new(case.ts.clone(), case.world.clone());
-        let resp = match catch(|| schema.execute(case.request(&env))) {
+        // one request in four arrives with its document already parsed (as the persisted-query path and callers of
+        // Request::set_parsed_query do): the lifecycle — parse_query hook included — must be the same
+        let preparsed = valid && case.hash() % 4 == 0;
+        let mut request = case.request(&env);
+        if preparsed {
+            if let Ok(doc) = async_graphql::parser::parse_query(&case.printed.text) {
+                request.set_parsed_query(doc);
+                run.count("requests_with_preparsed_document", 1);
+            }
+        }
+        let resp = match catch(|| schema.execute(request)) {
             Ok(r) => r,
             Err(p) => {
                 run.violation(&format!("C30-panic:{:x}", case.hash()), &format!("executor panicked with {n} extensions: {p}"), case.replay_json(schema.flavour()));
